@@ -49,7 +49,7 @@ Explain(r) ==
                 k \in {j \in DOMAIN r.lits : (r.lits[j].acc = 1) # NumAccepts(s, r.lits[j].lit)}}>>)
 
 Init == l = 1
-Next == l <= Len(Rec) /\ l' = l + 1 /\ (Rec[l].ev = "Init" \/ Num(Rec[l]) \/ (IOEnv.EXPLAIN = "1" /\ Explain(Rec[l]) /\ FALSE))
+Next == l <= Len(Rec) /\ l' = l + 1 /\ (IF Rec[l].ev = "Init" \/ Num(Rec[l]) THEN TRUE ELSE (IOEnv.EXPLAIN = "1" /\ Explain(Rec[l]) /\ FALSE))
 TSpec == Init /\ [][Next]_l
 
 Accepted ==
